@@ -93,7 +93,8 @@ struct Sys {
     /// persistent local handles, by slot
     locals: std::sync::Arc<Vec<std::sync::Mutex<Option<LCtr>>>>,
     /// what `collect` is called on (the counter itself or the vector it is a child of)
-    coll: std::sync::Arc<dyn Collector>,
+    /// None: collect is called on the one handle itself (single-handle programs)
+    coll: Option<std::sync::Arc<dyn Collector>>,
     reg: Registry,
 }
 
@@ -187,7 +188,14 @@ impl Sys {
             (COp::Reset, Ctr::I(c)) => c.reset(),
             (COp::Get, Ctr::F(c)) => return Some((c.get() / self.scale) as u64),
             (COp::Get, Ctr::I(c)) => return Some(c.get()),
-            (COp::Collect, _) => return Some(value_in(&self.coll.collect(), self.scale)),
+            (COp::Collect, h) => {
+                let fams = match (&self.coll, h) {
+                    (Some(c), _) => c.collect(),
+                    (None, Ctr::F(c)) => c.collect(),
+                    (None, Ctr::I(c)) => c.collect(),
+                };
+                return Some(value_in(&fams, self.scale));
+            }
             (COp::Gather, _) => return Some(value_in(&self.reg.gather(), self.scale)),
         }
         None
@@ -199,7 +207,7 @@ impl Property for C01 {
         "C01"
     }
     fn rule(&self) -> &'static str {
-        "case = one shared Counter or IntCounter (standalone or a CounterVec/IntCounterVec child, registered), 2-3 threads x 1-5 \
+        "case = one shared Counter or IntCounter (standalone and registered, standalone as ONE unregistered handle shared by reference, or a CounterVec/IntCounterVec child), 2-3 threads x 1-5 \
          operations from inc_by(2^i) with a unique bit per increment, inc(), get, Collector::collect, Registry::gather, a local \
          counter batch followed by flush (float counters, 15%: all amounts scaled by 2^-1074 / 2^-1060 / 2^-80 / 2^-30 / 2^900), \
          persistent local handles (35% of programs: inc_by on the handle, flush, clone of the handle \
@@ -234,27 +242,32 @@ impl Property for C01 {
         let float = src.chance(160);
         let as_child = src.chance(100);
         let reg = Registry::new();
+        // a third of the standalone programs use ONE handle, shared by reference between the threads: it is not registered and
+        // no clone of it exists anywhere (gather is replaced by collect on the handle itself)
+        let single_handle = !as_child && src.chance(85);
         let sys = match (float, as_child) {
+            (true, false) if single_handle => Sys { c: Ctr::F(Counter::new("c", "h").unwrap()), lazy: None, mine: vec![], scale: 1.0, locals: Default::default(), coll: None, reg },
+            (false, false) if single_handle => Sys { c: Ctr::I(IntCounter::new("c", "h").unwrap()), lazy: None, mine: vec![], scale: 1.0, locals: Default::default(), coll: None, reg },
             (true, false) => {
                 let c = Counter::new("c", "h").unwrap();
                 reg.register(Box::new(c.clone())).unwrap();
-                Sys { c: Ctr::F(c.clone()), lazy: None, mine: vec![], scale: 1.0, locals: Default::default(), coll: std::sync::Arc::new(c), reg }
+                Sys { c: Ctr::F(c.clone()), lazy: None, mine: vec![], scale: 1.0, locals: Default::default(), coll: Some(std::sync::Arc::new(c)), reg }
             }
             (false, false) => {
                 let c = IntCounter::new("c", "h").unwrap();
                 reg.register(Box::new(c.clone())).unwrap();
-                Sys { c: Ctr::I(c.clone()), lazy: None, mine: vec![], scale: 1.0, locals: Default::default(), coll: std::sync::Arc::new(c), reg }
+                Sys { c: Ctr::I(c.clone()), lazy: None, mine: vec![], scale: 1.0, locals: Default::default(), coll: Some(std::sync::Arc::new(c)), reg }
             }
             (true, true) => {
                 let v = CounterVec::new(Opts::new("c", "h"), &["l"]).unwrap();
                 reg.register(Box::new(v.clone())).unwrap();
                 // placeholder handle; replaced after the run in lazy mode
-                Sys { c: Ctr::F(Counter::new("placeholder", "h").unwrap()), lazy: Some(VecK::F(v.clone())), mine: vec![], scale: 1.0, locals: Default::default(), coll: std::sync::Arc::new(v), reg }
+                Sys { c: Ctr::F(Counter::new("placeholder", "h").unwrap()), lazy: Some(VecK::F(v.clone())), mine: vec![], scale: 1.0, locals: Default::default(), coll: Some(std::sync::Arc::new(v)), reg }
             }
             (false, true) => {
                 let v = IntCounterVec::new(Opts::new("c", "h"), &["l"]).unwrap();
                 reg.register(Box::new(v.clone())).unwrap();
-                Sys { c: Ctr::I(IntCounter::new("placeholder", "h").unwrap()), lazy: Some(VecK::I(v.clone())), mine: vec![], scale: 1.0, locals: Default::default(), coll: std::sync::Arc::new(v), reg }
+                Sys { c: Ctr::I(IntCounter::new("placeholder", "h").unwrap()), lazy: Some(VecK::I(v.clone())), mine: vec![], scale: 1.0, locals: Default::default(), coll: Some(std::sync::Arc::new(v)), reg }
             }
         };
         let mut sys = sys;
@@ -321,6 +334,7 @@ impl Property for C01 {
                     8 if with_reset => COp::Reset,
                     8..=11 => COp::Get,
                     12 | 13 => COp::Collect,
+                    _ if single_handle => COp::Collect,
                     _ => COp::Gather,
                 };
                 ops.push(op);
@@ -343,7 +357,7 @@ impl Property for C01 {
             .map(|(t, ops)| {
                 ops.iter()
                     .map(|op| {
-                        let s = sys.clone();
+                        let s = &sys;
                         let op = op.clone();
                         Box::new(move || s.exec(t, &op)) as OpFn<Option<u64>>
                     })
@@ -396,7 +410,7 @@ impl Property for C01 {
         // final reads by the main thread (slot `nthreads`): in lazy mode through a fresh request to the vector
         let fin_get = sys.exec(nthreads, &COp::Get);
         let fin_collect = sys.exec(nthreads, &COp::Collect);
-        let fin_gather = sys.exec(nthreads, &COp::Gather);
+        let fin_gather = if single_handle { fin_collect } else { sys.exec(nthreads, &COp::Gather) };
         hist.push(HOp { op: COp::Get, res: fin_get, invoke: last, response: last + 1 });
         let describe = |hist: &Vec<HOp<COp, Option<u64>>>| {
             let h: Vec<String> = hist
@@ -452,6 +466,9 @@ impl Property for C01 {
         rep.class(if float { "float-counter" } else { "int-counter" });
         if as_child {
             rep.class("vector-child");
+        }
+        if single_handle {
+            rep.class("single-handle-shared-by-reference");
         }
         if lazy_first_touch {
             rep.class("vector-child:first-request-inside-the-threads");
